@@ -2599,6 +2599,267 @@ class JsonCodec(Family):
         return {"construct": obs.get("construct"), "nprops": len(pr) if isinstance(pr, dict) else "n/a"}
 
 
+# --------------------------------------------------------------------------
+# aliasing / observational immutability: a schema behaves as a function of its string
+# --------------------------------------------------------------------------
+
+ALIAS_SOURCES = ["ms.schema", "ms.asdict", "table.schema", "table.asdict", "derived.schema", "parsed.schema",
+                 "decoded.direct", "decoded.row", "decoded.empty", "empty_value", "input-dict"]
+
+
+def deep_mutate(obj, rng, n=4):
+    """mutate a nested dict/list structure in place at random paths (below and at the top level)"""
+    for _ in range(n):
+        node = obj
+        for _depth in range(rng.choice([0, 1, 1, 2, 2, 3, 4])):
+            if isinstance(node, dict) and node:
+                nxt = node[rng.choice(sorted(node, key=str))]
+            elif isinstance(node, list) and node:
+                nxt = rng.choice(node)
+            else:
+                break
+            if not isinstance(nxt, (dict, list)):
+                break
+            node = nxt
+        k = rng.random()
+        if isinstance(node, dict):
+            keys = sorted(node, key=str)
+            if keys and k < 0.3:
+                del node[rng.choice(keys)]
+            elif keys and k < 0.7:
+                key = rng.choice(keys)
+                node[key] = rng.choice(["string", "integer", 7, None, [], {"type": "null"}, ["zz"], False])
+            else:
+                node[rng.choice(["zz_added", "required", "type", "default", "additionalProperties"])] = \
+                    rng.choice([["zz_added"], "string", {"type": "string"}, True, 5])
+        elif isinstance(node, list):
+            if node and k < 0.4:
+                node.pop(rng.randrange(len(node)))
+            elif node and k < 0.6:
+                node[rng.randrange(len(node))] = rng.choice(["zz", 1, None])
+            else:
+                node.append(rng.choice(["zz_added", 9, {"q": 1}]))
+
+
+class SchemaAliasing(Family):
+    """History family.  Build schema S; record its behaviour on a probe set (accept/reject, encoded
+    bytes, decoded objects, repr, str, equality, the cached parse of its string, a table carrying
+    it).  Then read objects out of it — S.schema, S.asdict(), table.metadata_schema.schema/asdict(),
+    MetadataSchema(S.asdict()).schema, the cached parse's dict, decoded row objects (direct, through a
+    table row, the empty row), empty_value — mutate each deeply at random paths, and record again:
+    nothing may have changed (a schema behaves as a function of its string form)."""
+    name = "schema_aliasing"
+    workers = 8
+    timeout = 60.0
+    prelude = "From TskVerif Require Import Base.Common C12.Model.\nOpen Scope Z_scope."
+
+    def generate(self, rng, tier):
+        n = 150 if tier == "quick" else 2500
+        made = 0
+        while made < n:
+            if made % 2 == 0:
+                s = gen_json_schema(rng)
+                if not isinstance(s.get("properties"), dict) or not s["properties"]:
+                    continue
+                probes = []
+                for _ in range(4):
+                    v = gen_json_value(rng, s)
+                    if rng.random() < 0.4:
+                        m = mutate_json_value(rng, s, v)
+                        if m is not None and m is not NOPE:
+                            v = m
+                    probes.append(tag(v))
+                probes.append({})
+            else:
+                s = gen_struct_schema(rng, depth=rng.choice([1, 2]), plain=True, objnull=False)
+                if not s["properties"] or exhaust_info(s)[0]:
+                    continue
+                probes = []
+                for _ in range(4):
+                    v = asciify(gen_value(rng, s))
+                    if rng.random() < 0.4:
+                        m, kind = mutate_value(rng, s, v)
+                        if kind:
+                            v = m
+                    probes.append(tag(v))
+                s = json.loads(json.dumps(asciify_defaults(s)))
+            made += 1
+            srcs = rng.sample(ALIAS_SOURCES, rng.choice([2, 3, 4]))
+            srcs.sort(key=lambda x: x == "input-dict")      # the caller's own dict last: it pollutes later reads
+            yield {"schema": s, "probes": probes, "sources": srcs, "mut_seed": rng.randrange(1 << 30),
+                   "kind": rng.choice(["nodes", "individuals", "populations"])}
+
+    # -- implementation side ------------------------------------------------
+    @staticmethod
+    def snapshot(ms, tc, kind, probes):
+        import tskit.metadata as M
+        out = {"repr": repr(ms), "str": str(ms), "schema_dict": json.dumps(ms.schema, sort_keys=True, default=str)}
+        parsed = M.parse_metadata_schema(repr(ms))          # lru_cache: the object every table shares
+        out["eq_parsed"] = bool(ms == parsed)
+        t = getattr(tc, kind)
+        out["table_repr"] = repr(t.metadata_schema)
+        rows = []
+        for tv in probes:
+            v = untag(tv)
+            row = {}
+            for name, m in (("ms", ms), ("parsed", parsed), ("table", t.metadata_schema)):
+                st, r = guarded(lambda: m.validate_and_encode_row(v), ENC_SECONDS)
+                if st != "ok":
+                    row[name] = {"enc": {"exc": r} if st == "exc" else "HANG"}
+                    continue
+                st2, d = guarded(lambda: m.decode_row(r))
+                row[name] = {"enc": list(r), "dec": tag(d) if st2 == "ok" else ({"exc": d} if st2 == "exc" else "HANG")}
+            tcc = tc.copy()
+            st, r = guarded(lambda: add_one(getattr(tcc, kind), kind, v), ENC_SECONDS)
+            if st == "ok":
+                tt = getattr(tcc, kind)
+                st2, d = guarded(lambda: tt[len(tt) - 1].metadata)
+                row["add_row"] = {"enc": list(raw_row(tt, len(tt) - 1)),
+                                  "dec": tag(d) if st2 == "ok" else ({"exc": d} if st2 == "exc" else "HANG")}
+            else:
+                row["add_row"] = {"enc": {"exc": r} if st == "exc" else "HANG"}
+            rows.append(row)
+        out["rows"] = rows
+        st, d = guarded(lambda: ms.decode_row(b"") if ms.schema is not None and ms.schema.get("codec") == "json" else None)
+        out["dec_empty"] = tag(d) if st == "ok" else {"exc": d}
+        st, d = guarded(lambda: getattr(tc, kind)[0].metadata)
+        out["stored_row0"] = tag(d) if st == "ok" else {"exc": d}
+        return out
+
+    def observe(self, case):
+        import copy
+        import random as _random
+        import tskit
+        import tskit.metadata as M
+        M.parse_metadata_schema.cache_clear()
+        user_dict = copy.deepcopy(case["schema"])
+        try:
+            ms = tskit.MetadataSchema(user_dict)
+        except Exception as e:
+            return {"construct": exc_name(e)}
+        kind = case["kind"]
+        tc = tskit.TableCollection(1.0)
+        t = getattr(tc, kind)
+        t.metadata_schema = ms
+        first_ok = None
+        for tv in case["probes"]:
+            try:
+                ms.decode_row(ms.validate_and_encode_row(untag(tv)))
+                add_one(t, kind, untag(tv))
+                first_ok = tv
+                break
+            except Exception:
+                continue
+        if first_ok is None:
+            return {"construct": "ok", "no_valid_probe": True}
+        before = self.snapshot(ms, tc, kind, case["probes"])
+        rng = _random.Random(case["mut_seed"])
+        steps = []
+        for src in case["sources"]:
+            try:
+                if src == "ms.schema":
+                    obj = ms.schema
+                elif src == "ms.asdict":
+                    obj = ms.asdict()
+                elif src == "table.schema":
+                    obj = getattr(tc, kind).metadata_schema.schema
+                elif src == "table.asdict":
+                    obj = getattr(tc, kind).metadata_schema.asdict()
+                elif src == "derived.schema":
+                    obj = tskit.MetadataSchema(ms.asdict()).schema
+                elif src == "parsed.schema":
+                    obj = M.parse_metadata_schema(repr(ms)).schema
+                elif src == "decoded.direct":
+                    obj = ms.decode_row(ms.validate_and_encode_row(untag(first_ok)))
+                elif src == "decoded.row":
+                    obj = getattr(tc, kind)[0].metadata
+                elif src == "decoded.empty":
+                    obj = ms.decode_row(b"") if case["schema"].get("codec") == "json" else ms.decode_row(
+                        ms.validate_and_encode_row(untag(first_ok)))
+                elif src == "empty_value":
+                    obj = ms.empty_value
+                else:
+                    obj = user_dict                          # the dict the caller passed to MetadataSchema()
+                if isinstance(obj, (dict, list)):
+                    deep_mutate(obj, rng)
+            except Exception as e:                            # a read must not fail either
+                steps.append({"src": src, "exc": exc_name(e)})
+                continue
+            after = self.snapshot(ms, tc, kind, case["probes"])
+            steps.append({"src": src, "same": after == before,
+                          "diff": None if after == before else first_diff(before, after)})
+            if after != before:
+                break
+        return {"construct": "ok", "before": before, "steps": steps}
+
+    def oracle(self, case, obs):
+        if obs.get("construct") != "ok" or obs.get("no_valid_probe"):
+            return []
+        out = []
+        for st in obs["steps"]:
+            if "exc" in st:
+                out.append(("aliasing-read-failed:" + st["src"], st["exc"]))
+            elif not st["same"]:
+                codec = case["schema"].get("codec")
+                key = "aliasing:%s:%s" % (codec, st["src"])
+                out.append((key, "after mutating what %s returned, the schema / its cached parse / the table behave "
+                                 "differently although the string form is what it was: %s" % (st["src"], st["diff"])))
+        # the three faces of the schema agree with each other on every probe
+        for tv, row in zip(case["probes"], obs["before"]["rows"]):
+            if not (row["ms"] == row["parsed"] == row["table"]) or row["add_row"].get("enc") != row["ms"].get("enc"):
+                out.append(("schema-faces-disagree", "probe %r: %r" % (tv, row)))
+        return dedup(out)
+
+    def coq_check(self, case, obs):
+        """struct schemas: the behaviour recorded on the probes is the model's, a function of the schema"""
+        if obs.get("construct") != "ok" or "before" not in obs or case["schema"].get("codec") != "struct":
+            return None
+        rows = [r["ms"] for r in obs["before"]["rows"]]
+        return coq_rows(case["schema"], case["probes"], rows)
+
+    def nontrivial(self, case, obs):
+        return "steps" in obs and len(obs["steps"]) > 0
+
+    def describe(self, case, obs):
+        d = {"codec": case["schema"].get("codec")}
+        for st in obs.get("steps", []):
+            d["source"] = st["src"]
+        return d
+
+
+def asciify_defaults(s):
+    """string defaults without multi-byte characters (fixed-width truncation must not split one here)"""
+    if isinstance(s, dict):
+        return {k: (asciify(v) if k == "default" else asciify_defaults(v)) for k, v in s.items()}
+    if isinstance(s, list):
+        return [asciify_defaults(x) for x in s]
+    return s
+
+
+def add_one(t, kind, v):
+    if kind == "nodes":
+        return t.add_row(flags=0, time=0.0, metadata=v)
+    if kind == "individuals":
+        return t.add_row(flags=0, metadata=v)
+    return t.add_row(metadata=v)
+
+
+def first_diff(a, b, path=""):
+    if type(a) is not type(b):
+        return "%s: %r -> %r" % (path, a, b)
+    if isinstance(a, dict):
+        for k in sorted(set(a) | set(b), key=str):
+            if a.get(k) != b.get(k):
+                return first_diff(a.get(k), b.get(k), path + "/" + str(k))
+    if isinstance(a, list):
+        if len(a) != len(b):
+            return "%s: length %d -> %d" % (path, len(a), len(b))
+        for i, (x, y) in enumerate(zip(a, b)):
+            if x != y:
+                return first_diff(x, y, "%s[%d]" % (path, i))
+    return "%s: %r -> %r" % (path, str(a)[:120], str(b)[:120])
+
+
 def has_len_array_of_zero_width(s):
     t = s.get("type")
     if isinstance(t, list) or t == "object":
@@ -2701,7 +2962,7 @@ class StructDecodeBytes(StructFamily):
                 yield c
 
 
-FAMILIES = [RowTransfer, StructDecodeBytes, StructRoundTrip, StructInvalidValue, StructExhaust, StructInvalidSchema, TablePaths, NumpyView, JsonCodec]
+FAMILIES = [SchemaAliasing, RowTransfer, StructDecodeBytes, StructRoundTrip, StructInvalidValue, StructExhaust, StructInvalidSchema, TablePaths, NumpyView, JsonCodec]
 
 NOT_COVERED = [
     "stringEncoding other than utf-8/ascii/latin-1 in the Coq model (utf-16/utf-32 variants are generated and checked by the oracle only: strings are byte lists after str.encode in the model)",
